@@ -16,7 +16,8 @@ RULE = ("One case = one grid shape, in half of the random cases with a second gr
         "GridWorld(w,h)); for the shape EVERY in-range coordinate triple is looked up (id formula as documented: "
         "discrete_grid_pos_to_id(x, y, world.width, z, world.height); range, injectivity, position table round-trip, "
         "get_cell row incl. a distinguishing cell component 10000z+100y+x) and every just-outside coordinate on both "
-        "sides of every axis must raise IndexError. Non-trivial: the shape has >= 2 cells. Distinct = distinct shapes.")
+        "sides of every axis must raise IndexError. Non-trivial: the shape has >= 2 cells. Distinct = distinct shapes."
+        " Added in rounds 19-24: the model may be marked complete; neighbourhood queries around the origin / far corner / middle may precede the lookups.")
 EXHAUSTIVE_DOMAIN = ("all (w,h,d) in {0..3}^3 (thorough {0..5}^3) as DiscreteWorld, LineWorld(1..4|6), GridWorld(1..4|6 squared); "
                      "all in-range triples and all just-outside triples of each")
 ASSUMPTIONS = ["a zero extent denotes the single layer 0 (the convention the world constructor uses for its position table)"]
